@@ -12,8 +12,8 @@ structure TrcOp where
   facts : X509Facts
 
 def takeTrcOp : List String → Option (TrcOp × List String)
-  | "nil" :: ws => some (⟨.nil, false, ⟨false, []⟩⟩, ws)
-  | "zero" :: ws => some (⟨.zero, false, ⟨false, []⟩⟩, ws)
+  | "nil" :: ws => some (⟨.nil, false, ⟨[]⟩⟩, ws)
+  | "zero" :: ws => some (⟨.zero, false, ⟨[]⟩⟩, ws)
   | "t" :: x :: ws => do
     let x ← parseBool x
     let (cs, ws) ← takeCerts ws
@@ -33,12 +33,15 @@ def vfy (ws : List String) : Option String := do
     | w :: ws => w.toInt?.map (·, ws)
     | [] => none
   let (certs, ws) ← takeCerts ws
+  let (asByCa, ws) ← match ws with
+    | w :: ws => (parseBool w).map (·, ws)
+    | [] => none
   let (n, ws) ← match ws with
     | w :: ws => w.toNat?.map (·, ws)
     | [] => none
   let (ts, ws) ← takeTrcOps n ws
   if !ws.isEmpty then none else
-  some (if verifyAny certs (ts.map fun t => (t.arg, t.x509ok)) then "ok" else "rej")
+  some (if verifyAny certs asByCa (ts.map fun t => (t.arg, t.x509ok)) then "ok" else "rej")
 
 def idOf (t : TrcInfo) : String := s!"{t.base}:{t.serial}"
 
